@@ -14,6 +14,56 @@ Proof. destruct k; vm_compute; reflexivity. Qed.
 Lemma byte_size_kind_size k : Z.of_nat (byte_size (layout_of k)) = kind_size k.
 Proof. destruct k; vm_compute; reflexivity. Qed.
 
+(* the kind-level description is an inverse pair: on in-width field values, and on the
+   whole-octet legacy values (which no layout encoding collides with) *)
+Lemma sweep_k_inverse_DutyCycleReq :
+  forallb (fun v => list_eqb N.eqb (spec_decode_k KDutyCycleReq (spec_encode_k KDutyCycleReq [v])) [v])
+          (255 :: range 16) = true.
+Proof. vm_compute. reflexivity. Qed.
+
+Theorem spec_k_inverse k vals : k <> KProprietary ->
+  in_widths (layout_of k) vals = true \/ (exists x, vals = [x] /\ is_legacy k x = true) ->
+  spec_decode_k k (spec_encode_k k vals) = vals.
+Proof.
+  intros Hk H.
+  destruct (kind_eqb k KDutyCycleReq) eqn:Ed.
+  - destruct k; try discriminate Ed. clear Ed.
+    assert (Hv : exists v, vals = [v] /\ (v = 255 \/ v < 16)).
+    { destruct H as [H|(x & -> & H)].
+      - cbn [layout_of in_widths] in H. destruct vals as [|v [|]]; try discriminate.
+        + exists v. split; [reflexivity|]. right. rewrite andb_true_r in H. apply N.ltb_lt in H. exact H.
+        + apply andb_true_iff in H as [_ H]. discriminate.
+      - exists x. split; [reflexivity|]. left. unfold is_legacy in H. cbn [legacy_octets existsb] in H.
+        rewrite orb_false_r in H. now apply N.eqb_eq in H. }
+    destruct Hv as (v & -> & Hv).
+    pose proof sweep_k_inverse_DutyCycleReq as S. rewrite forallb_forall in S.
+    assert (Hin : In v (255 :: range 16)) by (destruct Hv as [->|Hv]; [now left|right; now apply in_range]).
+    specialize (S v Hin). cbv beta in S.
+    revert S. generalize (spec_decode_k KDutyCycleReq (spec_encode_k KDutyCycleReq [v])). intros l S.
+    destruct l as [|a [|]]; cbn in S; try discriminate; [|rewrite andb_false_r in S; discriminate].
+    rewrite andb_true_r in S. apply N.eqb_eq in S. now subst.
+  - assert (Hl : legacy_octets k = []) by (destruct k; try discriminate Ed; reflexivity).
+    rewrite spec_encode_k_plain, spec_decode_k_plain by assumption.
+    destruct H as [H|(x & _ & H)]; [|unfold is_legacy in H; rewrite Hl in H; discriminate].
+    apply spec_decode_encode; [apply layout_whole_bytes|assumption].
+Qed.
+
+(* DutyCycleReq (4-bit field, or the whole-octet value 255 of LoRaWAN 1.0): all 256 values *)
+Lemma sweep_rt_DutyCycleReq :
+  forallb (fun m => match enc (PDutyCycleReq m) with
+                    | Ok bs => outcome_eqb macpl_eqb (dec KDutyCycleReq bs) (Ok (PDutyCycleReq m))
+                    | _ => true end) (range 256) = true.
+Proof. vm_compute. reflexivity. Qed.
+
+Lemma roundtrip_DutyCycleReq m bs :
+  wf_go (PDutyCycleReq m) = true -> enc (PDutyCycleReq m) = Ok bs ->
+  dec KDutyCycleReq bs = Ok (PDutyCycleReq m).
+Proof.
+  intros Hwf H. cbn [wf_go] in Hwf. unfold u8 in Hwf. apply N.ltb_lt in Hwf.
+  pose proof (sweep1 256 _ sweep_rt_DutyCycleReq m Hwf) as S. cbv beta in S. rewrite H in S.
+  now apply peqb_eq.
+Qed.
+
 (* encoding is lossless or refused (to wire resolution), for every value of the Go types *)
 Theorem roundtrip v bs :
   wf_go v = true -> enc v = Ok bs -> newch_ambiguous v = false ->
@@ -23,10 +73,15 @@ Proof.
   destruct (kind_eqb (kind_of v) KProprietary) eqn:Ek.
   - destruct v; try discriminate Ek. cbn in H. injection H as <-. reflexivity.
   - assert (Hk : kind_of v <> KProprietary) by (intros E; rewrite E in Ek; discriminate).
+    destruct (kind_eqb (kind_of v) KDutyCycleReq) eqn:Ed.
+    { destruct v; try discriminate Ed. now apply roundtrip_DutyCycleReq. }
+    assert (Hl : legacy_octets (kind_of v) = []) by (destruct v; try discriminate Ed; reflexivity).
     pose proof (enc_eq_spec v bs Hwf Hk H) as ->.
-    destruct (accepted_fields v _ Hwf Hk H Ha) as [Hw Hv].
+    destruct (accepted_fields v _ Hwf Hk Hl H Ha) as [Hw Hv].
+    rewrite spec_encode_k_plain by assumption.
     rewrite dec_eq_spec; [|assumption|apply spec_encode_bytes].
     unfold dec_spec. rewrite spec_encode_length, PeanoNat.Nat.eqb_refl.
+    rewrite spec_decode_k_plain by assumption.
     rewrite spec_decode_encode by (apply layout_whole_bytes || assumption).
     now rewrite Hv.
 Qed.
@@ -34,7 +89,7 @@ Qed.
 Lemma enc_length v bs : wf_go v = true -> kind_of v <> KProprietary -> enc v = Ok bs ->
   Z.of_nat (length bs) = kind_size (kind_of v).
 Proof.
-  intros Hwf Hk H. rewrite (enc_eq_spec v bs Hwf Hk H), spec_encode_length. apply byte_size_kind_size.
+  intros Hwf Hk H. rewrite (enc_eq_spec v bs Hwf Hk H), spec_encode_k_length by assumption. apply byte_size_kind_size.
 Qed.
 
 Lemma enc_bytes v bs : wf_go v = true -> enc v = Ok bs -> Forall (fun b => b < 256) bs.
@@ -43,18 +98,39 @@ Proof.
   destruct (kind_eqb (kind_of v) KProprietary) eqn:Ek.
   - destruct v; try discriminate Ek. cbn in H. injection H as <-. cbn in Hwf. now apply bytes_ok_Forall.
   - assert (Hk : kind_of v <> KProprietary) by (intros E; rewrite E in Ek; discriminate).
-    rewrite (enc_eq_spec v bs Hwf Hk H). apply spec_encode_bytes.
+    rewrite (enc_eq_spec v bs Hwf Hk H). now apply spec_encode_k_bytes.
 Qed.
 
 (* ---- registration histories ---- *)
+(* the registration rule, written independently of the model: for a proprietary CID the last
+   accepted registration (size >= 0) in that direction decides - a positive size is the framing
+   size, size 0 means "no payload" (no entry) *)
 Fixpoint spec_entry (h : list (bool * N * Z)) (up : bool) (cid : N) (cur : option (Z * kind)) : option (Z * kind) :=
   match h with
   | [] => cur
   | (u, c, sz) :: h' =>
     spec_entry h' up cid
-      (if Bool.eqb u up && (c =? cid) && (128 <=? c) && (c <=? 255) && (0 <? sz)%Z
-       then Some (sz, KProprietary) else cur)
+      (if Bool.eqb u up && (c =? cid) && (128 <=? c) && (c <=? 255) && (0 <=? sz)%Z
+       then (if (0 <? sz)%Z then Some (sz, KProprietary) else None) else cur)
   end.
+
+Lemma reg_lookup_remove r u c up cid :
+  reg_lookup (reg_remove r u c) up cid =
+  if Bool.eqb u up && (c =? cid) then None else reg_lookup r up cid.
+Proof.
+  induction r as [|[[u' c'] v] r IH]; cbn [reg_remove reg_lookup].
+  - now destruct (Bool.eqb u up && (c =? cid)).
+  - destruct (Bool.eqb u' u && (c' =? c)) eqn:E.
+    + rewrite IH. destruct (Bool.eqb u up && (c =? cid)) eqn:E2; [reflexivity|].
+      replace (Bool.eqb u' up && (c' =? cid)) with false; [reflexivity|].
+      apply andb_true_iff in E as [E1 E3]. apply eqb_prop in E1. apply N.eqb_eq in E3. subst. now rewrite E2.
+    + cbn [reg_lookup]. rewrite IH.
+      destruct (Bool.eqb u' up && (c' =? cid)) eqn:E3; [|reflexivity].
+      destruct (Bool.eqb u up && (c =? cid)) eqn:E2; [|reflexivity].
+      apply andb_true_iff in E3 as [A1 A2]. apply eqb_prop in A1. apply N.eqb_eq in A2.
+      apply andb_true_iff in E2 as [B1 B2]. apply eqb_prop in B1. apply N.eqb_eq in B2. subst.
+      rewrite eqb_reflx, N.eqb_refl in E. discriminate.
+Qed.
 
 Theorem register_history h : forall r up cid,
   reg_lookup (register_all r h) up cid = spec_entry h up cid (reg_lookup r up cid).
@@ -64,12 +140,22 @@ Proof.
   rewrite IH. f_equal. unfold register.
   destruct ((128 <=? c) && (c <=? 255)) eqn:E1; cbn [negb fst].
   - destruct (sz <? 0)%Z eqn:E2; cbn [fst].
-    + replace (0 <? sz)%Z with false by lia. now rewrite andb_false_r.
-    + destruct (sz =? 0)%Z eqn:E3; cbn [fst reg_lookup].
-      * replace (0 <? sz)%Z with false by lia. now rewrite andb_false_r.
-      * replace (0 <? sz)%Z with true by lia. rewrite andb_true_r.
-        rewrite <- !andb_assoc. rewrite E1. now rewrite andb_true_r.
+    + replace (0 <=? sz)%Z with false by lia. now rewrite andb_false_r.
+    + replace (0 <=? sz)%Z with true by lia. rewrite andb_true_r.
+      rewrite <- !andb_assoc. rewrite E1, andb_true_r.
+      destruct (sz =? 0)%Z eqn:E3; cbn [fst reg_lookup].
+      * replace (0 <? sz)%Z with false by lia. apply reg_lookup_remove.
+      * replace (0 <? sz)%Z with true by lia. reflexivity.
   - rewrite <- !andb_assoc. rewrite (andb_assoc (128 <=? c)), E1. cbn [andb]. now rewrite !andb_false_r.
+Qed.
+
+(* the audited history: size n > 0, then size 0, both accepted - the CID has no entry again *)
+Corollary reregister_zero r up cid n : 128 <= cid <= 255 -> (0 < n)%Z ->
+  reg_lookup (register_all r [(up, cid, n); (up, cid, 0%Z)]) up cid = None.
+Proof.
+  intros Hc Hn. rewrite register_history. cbn [spec_entry].
+  rewrite eqb_reflx, N.eqb_refl. replace (128 <=? cid) with true by lia. replace (cid <=? 255) with true by lia.
+  replace (0 <=? n)%Z with true by lia. reflexivity.
 Qed.
 
 (* built-in commands (CID < 128) are never altered, the other direction is untouched *)
